@@ -1971,6 +1971,36 @@ def root_local(fn, op, max_steps=12):
     return l, tuple(flds)
 
 
+def passes_downcast(fn, op, max_steps=12):
+    """True when following copies / moves / borrows from operand `op` back to its root local goes through a variant
+    payload (`(x as Ok).0`): the operand is what was taken out of a matched enum, not the enum itself."""
+    l = op["l"]
+    if any(isinstance(e, str) and e.startswith("@") for e in op["p"]):
+        return True
+    for _ in range(max_steps):
+        if 1 <= l <= fn.arg_count:
+            return False
+        sd = fn.single_def(l)
+        if sd is not None and sd[1] == "term" and sd[2]["args"] and sd[2]["args"][0]["k"] in ("copy", "move") and re.search(
+                r"Deref(Mut)?>?::deref(_mut)?$|::as_(mut_)?slice$|Index(Mut)?(<.*>)?>?::index(_mut)?$|Option::<T>::as_(ref|mut)$|Pin::<Ptr>::(as_mut|get_mut)$",
+                sd[2]["callee"]):
+            src = sd[2]["args"][0]
+        elif sd is None or sd[1] == "term" or sd[2]["k"] != "assign":
+            return False
+        else:
+            rv = sd[2]["rv"]
+            if rv["k"] == "use" and rv["op"]["k"] in ("copy", "move"):
+                src = rv["op"]
+            elif rv["k"] in ("ref", "rawptr"):
+                src = rv["place"]
+            else:
+                return False
+        if any(isinstance(e, str) and e.startswith("@") for e in src["p"]):
+            return True
+        l = src["l"]
+    return False
+
+
 def first_switches(fn, start, info_pred):
     """Discriminant/bool switches accepted by info_pred(info) that are reached first from block `start`
     (re-tests of the same value further down -- typically inserted by drop elaboration -- are not returned)."""
